@@ -126,14 +126,15 @@ impl GenerationPass for AvailableValuePass {
         // yet, which is not the same as knowing nothing. Only code that no
         // visited node leads to (an unreachable cycle) is started without.
         let mut wait_for_a_predecessor = true;
-        // The first sweep only sees the predecessors that come earlier in the
-        // program: it never is the last one, even when it reproduces the values
-        // of an earlier run (a predecessor may have been added since, as when a
-        // return has been redirected to the exit of its function).
-        let mut sweeps = 0;
-        while changed || sweeps < 2 {
-            sweeps += 1;
+        // A node computed while one of its predecessors had not been visited yet
+        // only knows part of what leads to it: such a sweep never is the last
+        // one, even when it reproduces the values of an earlier run (values
+        // that another run left behind, or a predecessor added since, as when
+        // a return has been redirected to the exit of its function).
+        let mut incomplete = true;
+        while changed || incomplete {
             changed = false;
+            incomplete = false;
             let visited_before = visited.len();
             let mut waiting = false;
             #[cfg(feature = "rva_verif")]
@@ -146,6 +147,9 @@ impl GenerationPass for AvailableValuePass {
                 {
                     waiting = true;
                     continue;
+                }
+                if node.prevs().iter().any(|prev| !visited.contains(prev)) {
+                    incomplete = true;
                 }
                 // in[n] = AND out[p] for all p in prev[n]
                 let mut in_reg_n = node
